@@ -37,7 +37,7 @@ func init() {
 		ID: "C05", Level: "fault_enumeration", Run: runC05, Replay: replayC05,
 		Rule:        "a case is one operation sequence on one live handle; after every operation of every sequence the handle is treated as abandoned: the file is re-read through an independent descriptor and compared with the bytes of the last successful Sync (evaluations = crash points examined). Distinct by construction (all sequences over the alphabet up to the length bound); non-trivial = the sequence contains at least one write that is followed by a crash point before the next Sync.",
 		Assumptions: []string{"a crash between Syncs is modelled as dropping the handle: what is on disk is what an independent descriptor reads (tmpfs; no page cache loss is modelled)", "torn writes inside Sync are outside the statement"},
-		NeedsInstr:  []string{"whispertool:os.Getpagesize"},
+		NeedsInstr:  []string{"whispertool:os.Getpagesize", "cmd:time.Now"},
 	})
 }
 
@@ -234,6 +234,10 @@ func runC05(c *fw.Ctx) {
 	pcs := []pc{{"L4", 16}, {"L4", 20}, {"L6", 16}, {"L6", 20}, {"L6", 64}, {"L9", 16}, {"L9", 20}, {"L9", 64}, {"L5", 4096}, {"LP", 4096}}
 	c.R.Bounds["sequences"] = fmt.Sprintf("all sequences of length <=%d over 6-7 operations, from a fresh file and from a file with one synced write", maxLen)
 	c.R.Bounds["configs"] = fmt.Sprint(pcs)
+	c.R.Bounds["cli"] = "copy and sum-copy x {report on /dev/full larger than the 4 KiB buffer, layout mismatch, truncated source} x 2 source fills x archive all/0 x copy-nan: destination bytes before = after whenever the command fails"
+	if c.Shard == 0 {
+		c05CLI(c)
+	}
 	for _, x := range pcs {
 		ld := LayoutByTag(x.tag)
 		cfg := ACfg{Tag: ld.Tag, Spec: ld.Spec, Archs: ld.Archs, Method: 2, XFF: 0, Page: x.page}
